@@ -57,12 +57,13 @@ type Entry struct {
 	V     func(c *VCtx)
 	M     *MemOp
 	// flags
-	AccD    bool // destination is also a source (v_mac: S2 = D)
-	Cmpx    bool // also writes EXEC
-	NoVOP3  bool // has no VOP3 encoding
-	OnlyE64 bool // VOP3-only opcode
-	Page    string // page of the GCN3 manual (chapter 12/13) the entry was transcribed from
-	Note    string
+	AccD      bool   // destination is also a source (v_mac: S2 = D)
+	Cmpx      bool   // also writes EXEC
+	NoVOP3    bool   // has no VOP3 encoding
+	OnlyE64   bool   // VOP3-only opcode
+	SDWAQuirk string // deviation models only: "pad-always", "sext-fills-low-bits"
+	Page      string // page of the GCN3 manual (chapter 12/13) the entry was transcribed from
+	Note      string
 }
 
 var registry = map[string]*Entry{}
@@ -124,25 +125,25 @@ func Entries() []*Entry {
 // NotCovered lists opcodes that the ALUs implement but for which the manuals
 // give no exact reference (or which are outside the property's subset).
 var NotCovered = map[string]string{
-	"v_exp_f32":           "transcendental, no exact reference (1 ULP)",
-	"v_log_f32":           "transcendental, no exact reference",
-	"v_log_legacy_f32":    "transcendental, no exact reference",
-	"v_rcp_f32":           "approximate reciprocal (<1 ULP), no exact reference",
-	"v_rcp_iflag_f32":     "approximate reciprocal, no exact reference",
-	"v_rcp_f64":           "approximate reciprocal, no exact reference",
-	"v_rsq_f32":           "approximate, no exact reference",
-	"v_sqrt_f32":          "approximate, no exact reference",
-	"v_div_scale_f32":     "division helper, not in the property's subset",
-	"v_div_scale_f64":     "division helper, not in the property's subset",
-	"v_div_fixup_f32":     "division helper, not in the property's subset",
-	"v_div_fixup_f64":     "division helper, not in the property's subset",
-	"v_div_fmas_f32":      "division helper, not in the property's subset",
-	"v_div_fmas_f64":      "division helper, not in the property's subset",
-	"v_cvt_f16_f32":       "f16 conversion: rounding/denormal behaviour mode dependent, not in subset",
-	"v_mul_legacy_f32":    "DX9 legacy multiply, not in the property's subset",
-	"v_pk_fma_f32":        "CDNA3 packed math: semantics only in the (absent) CDNA3 instruction chapter",
-	"v_pk_mul_f32":        "CDNA3 packed math: semantics only in the (absent) CDNA3 instruction chapter",
-	"v_pk_add_f32":        "CDNA3 packed math: semantics only in the (absent) CDNA3 instruction chapter",
-	"v_movrelsd_b32":      "relative addressing via M0, not in the property's subset (no llvm-mc encoding for gfx90a)",
-	"v_cmp_class_f32":     "class test; covered (see table) ",
+	"v_exp_f32":        "transcendental, no exact reference (1 ULP)",
+	"v_log_f32":        "transcendental, no exact reference",
+	"v_log_legacy_f32": "transcendental, no exact reference",
+	"v_rcp_f32":        "approximate reciprocal (<1 ULP), no exact reference",
+	"v_rcp_iflag_f32":  "approximate reciprocal, no exact reference",
+	"v_rcp_f64":        "approximate reciprocal, no exact reference",
+	"v_rsq_f32":        "approximate, no exact reference",
+	"v_sqrt_f32":       "approximate, no exact reference",
+	"v_div_scale_f32":  "division helper, not in the property's subset",
+	"v_div_scale_f64":  "division helper, not in the property's subset",
+	"v_div_fixup_f32":  "division helper, not in the property's subset",
+	"v_div_fixup_f64":  "division helper, not in the property's subset",
+	"v_div_fmas_f32":   "division helper, not in the property's subset",
+	"v_div_fmas_f64":   "division helper, not in the property's subset",
+	"v_cvt_f16_f32":    "f16 conversion: rounding/denormal behaviour mode dependent, not in subset",
+	"v_mul_legacy_f32": "DX9 legacy multiply, not in the property's subset",
+	"v_pk_fma_f32":     "CDNA3 packed math: semantics only in the (absent) CDNA3 instruction chapter",
+	"v_pk_mul_f32":     "CDNA3 packed math: semantics only in the (absent) CDNA3 instruction chapter",
+	"v_pk_add_f32":     "CDNA3 packed math: semantics only in the (absent) CDNA3 instruction chapter",
+	"v_movrelsd_b32":   "relative addressing via M0, not in the property's subset (no llvm-mc encoding for gfx90a)",
+	"v_fma_f16":        "half precision, not in the property's subset (the CDNA3 ALU dispatches VOP3b opcode 494 to its v_div_scale_f64 handler)",
 }
